@@ -189,6 +189,52 @@ FamFixed(FW1, FF1, FW2, WS, FSK, AB) ==
     : fw1 \in FW1, ff1 \in FF1, fw2 \in FW2, ws \in WS, fsk \in [1..3 -> FSK], wab \in AB,
       wr \in {"SSP", "HSV"} }
 
+\* ---- FamHalf: fractional amounts (Q = 2: every number is a multiple of 1/2) -------------------
+\* work 1/2 .. 2, skills 1/2, 1, 3/2, default progress 0 or 1/2: work that ends exactly at a step
+\* boundary, overshoots it, or is half done before the start; dedicated workers, all kinds
+FamHalf ==
+  { Cfg("half", 2,
+        [t \in 1..3 |-> [Task(w[t], IF t = 2 /\ w[t] % 2 = 0 THEN pg ELSE 0, FALSE, 2, FALSE, 0, <<1>>, <<>>, r[t] - 1)
+                           EXCEPT !.rate = 2]],
+        d, 1,
+        [k \in 1..3 |-> PlainWorker([t \in 1..3 |-> IF t = k THEN s[k] ELSE 0], 1)],
+        <<>>, <<>>, <<>>, Opt(al, FALSE, "TSLACK", 14))
+    : w \in [1..3 -> {1, 2, 3, 4}], s \in {<<1, 2, 3>>, <<2, 2, 1>>, <<3, 1, 2>>}, pg \in {0, 2},
+      r \in TwoOrders(3), al \in {<<>>, <<1>>},
+      d \in {<<>>, <<<<1, 2, "FS">>, <<2, 3, "FS">>>>, <<<<1, 2, "SS">>, <<1, 3, "FF">>>>,
+             <<<<1, 2, "FF">>, <<2, 3, "SF">>>>, <<<<2, 1, "SF">>, <<1, 3, "SS">>>>} }
+
+\* ---- FamMainWp: main workplaces and the MW rule ---------------------------------------------
+\* two workplaces with one facility each, two facility tasks on components of their own, three
+\* workers whose main workplace is none / 1 / 2; worker rule MW or SSP
+FamMainWp ==
+  { Cfg("mainwp", 1,
+        << [Task(2, 0, FALSE, 1, TRUE, 1, <<1>>, l1, 0) EXCEPT !.wrule = wr],
+           [Task(2, 0, FALSE, 1, TRUE, 2, <<1>>, l2, 1) EXCEPT !.wrule = wr],
+           [Task(w3, 0, FALSE, 1, FALSE, 0, <<1>>, <<>>, 2) EXCEPT !.wrule = wr] >>,
+        d, 1,
+        << Worker(1, <<sk[1], 1, 1>>, <<1, 1>>, 1, FALSE, <<>>, mw[1]),
+           Worker(1, <<sk[2], 1, 1>>, <<1, 1>>, 2, FALSE, <<>>, mw[2]),
+           Worker(1, <<sk[3], 1, 0>>, <<1, fl>>, 3, FALSE, <<>>, mw[3]) >>,
+        << Facility(1, <<1, 1, 0>>, 1, FALSE, <<>>), Facility(2, <<1, 1, 0>>, 2, FALSE, <<>>) >>,
+        << [cap |-> 2, inputs |-> <<>>], [cap |-> 2, inputs |-> <<>>] >>,
+        << [space |-> 2, children |-> <<>>], [space |-> 2, children |-> <<>>] >>,
+        Opt(<<>>, FALSE, "TSLACK", 12))
+    : l1 \in {<<1>>, <<1, 2>>, <<2, 1>>}, l2 \in {<<2>>, <<2, 1>>}, w3 \in {1, 3},
+      wr \in {"MW", "SSP", "VC"}, mw \in [1..3 -> {0, 1, 2}], sk \in {<<1, 1, 1>>, <<2, 1, 1>>}, fl \in {0, 1},
+      d \in {<<>>, <<<<1, 2, "FS">>>>} }
+
+\* ---- FamDue: due times (backward simulation with considering_due_time_of_tail_tasks) --------
+FamDue ==
+  { Cfg("due", 1,
+        [t \in 1..3 |-> [PlainTask(w[t], r[t] - 1) EXCEPT !.due = du[t]]],
+        d, 1,
+        [k \in 1..3 |-> PlainWorker([t \in 1..3 |-> IF t = k THEN 1 ELSE 0], 1)],
+        <<>>, <<>>, <<>>, Opt(<<>>, FALSE, "TSLACK", 14))
+    : w \in [1..3 -> {1, 2}], du \in [1..3 -> {-1, 0, 3, 5}], r \in TwoOrders(3),
+      d \in {<<>>, <<<<1, 2, "FS">>>>, <<<<1, 2, "FS">>, <<1, 3, "FS">>>>, <<<<1, 3, "FS">>, <<2, 3, "FS">>>>,
+             <<<<1, 2, "SS">>>>, <<<<1, 2, "FF">>, <<2, 3, "FS">>>>} }
+
 \* ---- FamDag: a component with two parents ----------------------------------------------------
 FamDag ==
   { Cfg("dag", 1,
@@ -402,6 +448,9 @@ Family(name, tier) ==
                                        {FixOff, FixOn(<<>>), FixOn(<<2>>), FixOn(<<1>>), FixOn(<<2, 1>>)},
                                        {FixOff, FixOn(<<>>), FixOn(<<3>>), FixOn(<<1, 2>>)}, {<<1, 1, 1>>, <<2, 1, 1>>, <<1, 1, 2>>},
                                        {<<1, 1>>, <<1, 0>>, <<0, 1>>}, {<<>>, <<1>>, <<0, 2>>})
+    [] name = "half"   -> FamHalf
+    [] name = "mainwp" -> FamMainWp
+    [] name = "due"    -> FamDue
     [] name = "dag"   -> FamDag
     [] name = "edge"  -> FamEdge
     [] name = "watch" -> FamWatch
